@@ -66,7 +66,7 @@ type instModel struct {
 
 func TestPropReclaim(t *testing.T) {
 	sub := stats.NewSub("reclaim-histories", "rapid state machine on the real limiter (2 shards, local / API-backed store, 3 upstreams; 4 instance identities per history from a pool of 7, always including a related pair: one a prefix of the other, or equal in their first 63 characters; one identity is not a valid label value): ops heartbeat, report (allocate; one in three reports of an instance the server has no heartbeat of comes without one: the instance is on record but not alive), acquire (count strategy), go silent, cleanup pass, comeback with the same identity; oracle after every pass: no condition and no in-flight count of a silent instance remains anywhere, running total == per-instance sum, everything of instances with a fresh heartbeat is unchanged; after the next survivor report the recorded sum excludes the dead instance and the freed in-flight capacity can be taken by a survivor; non-trivial = a pass reclaims >=1 instance that had state while >=1 other instance with state stays, or an instance comes back after being reclaimed; distinct by FNV-64 of the op trace")
-	stats.Check(t, stats.N(4000, 20000), func(t *rapid.T) {
+	stats.Check(t, stats.N(8000, 30000), func(t *rapid.T) {
 		// four identities per history: a pair of related ones (prefix / extension, or equal in their first 63 characters) and two more
 		pairs := [][2]string{{"gw-a", "gw-a-1"}, {"gw", "gw-b"}, {"10.0.0.1:443", "gw-a"}, {instancePool[5], instancePool[6]}, {instancePool[5], instancePool[6]}}
 		pr := rapid.SampledFrom(pairs).Draw(t, "relatedIdentities")
